@@ -187,6 +187,8 @@ def ref_eval(tree, store: RefStore):
         return store.read(tree[2], tree[3])
     if k == 'num':
         return num_value(tree[1])
+    if k == 'verb':
+        return eval(tree[1])          # verbatim Python text, evaluated as it stands
     if k == 'paren':
         return ref_eval(tree[1], store)
     if k == 'neg':
